@@ -377,11 +377,11 @@ register("C04", streams=[Q("filter", pred="has", apis=["find_matches"], src=Fals
          observables=["fncalls", "results_exc"],
          rule="has/has_not/has_all/has_any trees (depth<=3) over relative paths incl. wildcards, recursion, parent steps, nested filters; six operators; constants of every JSON kind; conversion chains of length 0-3 that raise on part of the data; compared: results, conversion call order, exception chain")
 register("C05", streams=[Q("all", apis=ALL_APIS, src=None, share=3, untraced=0.4), Q("parent", apis=ALL_APIS, src=True, share=1, untraced=0.4)],
-         observables=["results_exc"],
+         observables=["results_exc"], oracles=[oracles.deep_oracle],
          rule="all four read functions on the same (path, source) space, source = document or k-th match of another path; default in {none, constant incl. falsy and {}, callable}; must_match in {True, False}")
 register("C07", generated=["Shared"], streams=[Q("all", apis=["find_matches", "find"], src=None, nexts="partial", untraced=0.5, share=4),
                          Q("filter", pred="below", apis=["find_matches", "find"], src=None, nexts="partial", untraced=0.5, share=1)],
-         observables=["calls", "results_exc", "segments"], oracles=[oracles.interleave_oracle, oracles.thread_oracle, oracles.reiter_oracle],
+         observables=["calls", "results_exc", "segments"], oracles=[oracles.interleave_oracle, oracles.thread_oracle, oracles.reiter_oracle, oracles.long_iteration_oracle],
          rule="iterators advanced k times (k below, at, beyond the number of results; extra next() calls after exhaustion); per-call segments of results and user-predicate calls compared with the machine model; interleavings of 2-5 iterators sharing path objects; real threads as support")
 register("C11", streams=[Q("nopar", apis=["find_matches"], src=None)],
          observables=["full_results"], oracles=[oracles.match_truth_oracle, oracles.match_eq_oracle],
@@ -397,7 +397,7 @@ register("C17", streams=[Q("all", apis=["find_matches", "find", "get_match"], sr
          observables=["results_exc", "leaf_events", "stamps", "tie:trace"], oracles=[oracles.untraced_oracle],
          rule="full trace event stream (last_match, vertex index, next_match, predicate_match) compared with the machine model; unstamped events compared with the specification stream; traced vs untraced runs compared on the python side")
 register("C20", generated=["Budget"], streams=[Q("all", apis=["find_matches"], src=None, nexts="drain")],
-         observables=["attempts_bound", "results_exc", "tie:attempts"], oracles=[oracles.work_bound_oracle, oracles.cyclic_oracle],
+         observables=["attempts_bound", "results_exc", "tie:attempts"], oracles=[oracles.work_bound_oracle, oracles.cyclic_oracle, oracles.deep_oracle],
          extra=[families.GraphFamily("cyclic", 8, 150, "per-next() trace-event count and signal on self-referential structures under the real budget")],
          rule="number of trace events of a drained search compared with the specification's attempt count and with 2 x examinations; cyclic dict/list structures with the real budget as support")
 
@@ -416,15 +416,15 @@ register("C18", extra=[families.MutateFamily("descr", 1500, 60000, "outcome and 
 register("C19", extra=[families.MutateFamily("listview", 1500, 60000, "results and object graph of list-view operation histories")],
          rule="histories of len / [i] / [i]= / del [i] / in / append / pop(i) / iteration / live iterators interleaved with mutations / keep_all / remove_all through the view of a list-typed attribute (identity, negating and boxing converters; empty lists; negative and out-of-range indices; predicates keeping none / some / all); compared: results and the document's own list object in the whole object graph")
 
-register("C15", extra=[families.BuilderFamily("dag", 1500, 60000, "renderings and selections of expression derivation DAGs")],
+register("C15", oracles=[oracles.reuse_oracle], extra=[families.BuilderFamily("dag", 1500, 60000, "renderings and selections of expression derivation DAGs")],
          generated=["Reserved"],
          rule="derivation DAGs over path / pathd: attribute and item steps of every kind (incl. reserved attribute names, odd builder attributes, unsupported indices), siblings derived before and after their shared prefix was rendered or evaluated, equivalent spellings derived late from one prefix; compared: str()/repr() of every expression, results of evaluating it on random documents (keys with '-' and '_'), errors")
 
 register("C06", streams=[Q("all", apis=ALL_APIS, src=None, share=1)], n_quick=1500, n_thorough=60000,
-         observables=["results_exc"], oracles=[oracles.snapshot_oracle], generated=["Stores"],
+         observables=["results_exc"], oracles=[oracles.snapshot_oracle, oracles.reuse_oracle], generated=["Stores"],
          rule="read-only calls (find / find_matches / get_match / get, traced and untraced, from a document or a Match, any has-family predicates) repeated 2-5 times on the same document and the same path object: deep snapshot (container identities, key order, list contents) before = after every call, the path renders like a never-evaluated twin, later evaluations select what the first did; plus the store table regenerated from the source")
 register("C16", streams=[Q("all", apis=ALL_APIS, src=None, share=1)], n_quick=1500, n_thorough=60000,
-         observables=["results_exc"], oracles=[oracles.documented_oracle, oracles.slice_mutation_oracle],
+         observables=["results_exc"], oracles=[oracles.documented_oracle, oracles.slice_mutation_oracle, oracles.deep_oracle],
          extra=[families.MutateFamily("set", 400, 15000, "error classes of set_ / set_match"),
                 families.MutateFamily("pop", 400, 15000, "error classes of pop / pop_match"),
                 families.BuilderFamily("dag", 400, 15000, "PathSyntaxError at construction for unsupported indices")],
